@@ -4,39 +4,43 @@
 set -u
 export GOFLAGS=-mod=mod GOPROXY=off GOSUMDB=off GOTOOLCHAIN=local
 export GOCACHE=${GOCACHE:-/root/.cache/go-build}
-cd /verif/harness || exit 2
-mkdir -p /verif/bin /verif/evidence /verif/replays
+# relocatable: everything is relative to the directory of this script (so that a snapshot
+# of /verif can run side by side); /repo is always the tree under test
+ROOT="$(cd "$(dirname "$(readlink -f "$0")")" && pwd)"
+export VERIF_ROOT="$ROOT"
+cd "$ROOT/harness" || exit 2
+mkdir -p "$ROOT/bin" "$ROOT/evidence" "$ROOT/replays"
 ID="$1"; TIER="${2:-quick}"
-BIN=/verif/bin/vcheck.$$.$ID
+BIN=$ROOT/bin/vcheck.$$.$ID
 BUILDARGS=""
 OVDIR=""
 if [ "$ID" = "C14" ]; then
-  OVDIR=/verif/bin/ov.$$
-  if python3 /verif/tools/mkoverlay.py "$OVDIR" >/dev/null 2>&1 && go build -tags verifshim -overlay "$OVDIR/overlay.json" -o "$BIN" ./cmd/vcheck 2>/verif/bin/build.$ID.log; then
+  OVDIR=$ROOT/bin/ov.$$
+  if python3 $ROOT/tools/mkoverlay.py "$OVDIR" >/dev/null 2>&1 && go build -tags verifshim -overlay "$OVDIR/overlay.json" -o "$BIN" ./cmd/vcheck 2>$ROOT/bin/build.$ID.log; then
     BUILDARGS=done
   else
     echo "note: sync shim overlay build failed, falling back to the plain build" >&2
   fi
-  if go build -race -o /verif/bin/vrace.$$ ./cmd/vrace 2>>/verif/bin/build.$ID.log; then
-    export VERIF_RACE_BIN=/verif/bin/vrace.$$
+  if go build -race -o $ROOT/bin/vrace.$$ ./cmd/vrace 2>>$ROOT/bin/build.$ID.log; then
+    export VERIF_RACE_BIN=$ROOT/bin/vrace.$$
   fi
 fi
-if [ "$BUILDARGS" != "done" ] && ! go build -o "$BIN" ./cmd/vcheck 2>/verif/bin/build.$ID.log; then
+if [ "$BUILDARGS" != "done" ] && ! go build -o "$BIN" ./cmd/vcheck 2>$ROOT/bin/build.$ID.log; then
   echo "harness build failed against /repo working tree:" >&2
-  cat /verif/bin/build.$ID.log >&2
+  cat $ROOT/bin/build.$ID.log >&2
   rm -f "$BIN"
   exit 2
 fi
 GXZ=""
 case "$ID" in C10|C15)
-  GXZ=/verif/bin/gxz.$$.$ID
-  if ! (cd /repo && go build -o "$GXZ" ./cmd/gxz) 2>/verif/bin/build.$ID.log; then
-    echo "gxz build failed:" >&2; cat /verif/bin/build.$ID.log >&2; rm -f "$BIN"; exit 2
+  GXZ=$ROOT/bin/gxz.$$.$ID
+  if ! (cd /repo && go build -o "$GXZ" ./cmd/gxz) 2>$ROOT/bin/build.$ID.log; then
+    echo "gxz build failed:" >&2; cat $ROOT/bin/build.$ID.log >&2; rm -f "$BIN"; exit 2
   fi
   export VERIF_GXZ="$GXZ";;
 esac
 "$BIN" "$ID" --tier "$TIER"
 rc=$?
-rm -f "$BIN" $GXZ /verif/bin/vrace.$$
+rm -f "$BIN" $GXZ $ROOT/bin/vrace.$$
 [ -n "$OVDIR" ] && rm -rf "$OVDIR"
 exit $rc
